@@ -198,6 +198,40 @@ PROPS = {
         ],
         'not_covered': ['strict rotation is proved as a lemma over the queue postcondition (lemma_rotation_strict: the k-th of n consecutive successful sends goes to the k-th identity of the queue) for a queue whose identities are all live; that the n identities are n DIFFERENT peers needs a duplicate-free queue, which peer_connected establishes by pushing each identity once and which is not re-proved as a global invariant across calls'],
     },
+    'C05': {
+        'units': ['fairqueue', 'routing', 'reqrep', 'sub', 'pubsub', 'codec'],
+        'scope': [
+            # the queue: an item is labelled with the key of the stream it was read from, that stream has yielded exactly
+            # this one more item and is put back, every other stream keeps its history, only an ended stream is dropped;
+            # registration / removal touch exactly one key; the whole-history corollary (lemma_trace_*)
+            ('fairqueue', r'^FairQueue::poll_next$|^QueueInner::(insert|remove)$|^StreamWaker::wake_by_ref$', A, None),
+            ('fairqueue', r'^tmpl::lemma_trace', A, None),
+            # every receiving socket type: the items consumed by one call are non-message items skipped by design plus
+            # exactly one message (returned with the same frames, or refused as ONE error) / one failure / the end
+            ('routing', r'^(RouterSocket|DealerSocket|PullSocket)::recv$', F, None),
+            ('routing', r'^tmpl::lemma_recv_trace', A, None),
+            ('reqrep', r'^RepSocket::recv$', F, None),
+            ('sub', r'^SubSocket::recv$', F, None),
+            ('pubsub', r'^XPubSocket::recv$', F, None),
+            # the read half that is polled is the one the handshake used, registered under the peer's identity
+            ('routing', r'^FramedIo::into_parts$|^GenericSocketBackend::peer_(connected|disconnected)$', F, None),
+            ('reqrep', r'^RepSocketBackend::peer_(connected|disconnected)$', F, None),
+            # per connection: whole messages only, each once, in order, never merged or split (the RFC stream decoder)
+            ('codec', r'^ZmqCodec::decode$', F, r'^(?!bm_reserved)'),
+            ('codec', r'^ZmqCodec::new$', A, None),
+            ('codec', r'^ZmqMessage::push_back$|ZmqMessage as From<Bytes>', A, None),
+            ('codec', r'^tmpl::(lemma_seg_|lemma_step_progress|rfc_drain_decreases)', A, None),
+        ],
+        'kani': {},
+        'assumptions': [
+            'SEQUENTIAL scope: FairQueue::poll_next is verified as if the queue lock were held for the whole call (Arc<Mutex<..>> as owned data, one poll at a time). The window in which a stream is checked out while ANOTHER task inserts, wakes or removes streams - the concurrency the property quantifies over - is not decided; what is decided is every history of calls, with any behaviour of every stream, in which calls do not overlap',
+            '`io_stream.as_mut().poll_next(&mut cx)` is an assumed expression (Pin::as_mut): a poll yields Pending, one more item of that stream, or its end; a stream is its sequence of yielded items',
+            'FairQueue::next in the socket units is a stand-in that yields ANY (peer, item) pair and logs it; the socket-level contracts speak about that log, the queue-level contracts (unit fairqueue) about the real queue; that next() == one poll_next that returned Ready is the futures StreamExt contract',
+            'asynchronous-codec FramedRead: appends what it reads to one buffer, calls decode repeatedly, yields what decode yields in that order, and at end of input reports leftover octets as an error (a message cut short is not yielded: decode itself never yields an incomplete message - proved)',
+            'fairqueue unit: the std Clone trait is shadowed by a stand-in whose contract is "a clone equals the original" (assumption on the key type), BinaryHeap is a bag, AtomicUsize tickets are arbitrary',
+        ],
+        'not_covered': ['interleavings: peers added, woken or removed by other tasks WHILE poll_next has a stream checked out (the lock is released around the inner poll); stale wake-ups from other threads', 'which peer is served next (fairness: C06)', 'SUB / XPUB / PUB reader tasks that do not go through the fair queue'],
+    },
     'C14': {
         'units': ['reqrep', 'routing', 'fairqueue'],
         'scope': [
